@@ -540,6 +540,20 @@ impl<T: Eq + Hash> FrequentItemsSketch<T> {
             })?);
         }
 
+        // The counts are lower bounds of disjoint parts of the stream and every purge removes at
+        // least its offset increment from them, so neither their sum nor the offset can exceed
+        // the stream weight; the sums computed from them later rely on that.
+        let counted = values.iter().try_fold(0u64, |sum, &v| sum.checked_add(v));
+        let largest = values.iter().copied().max().unwrap_or(0);
+        if !counted.is_some_and(|sum| sum <= stream_weight)
+            || offset_val > stream_weight
+            || offset_val.checked_add(largest).is_none()
+        {
+            return Err(Error::deserial(format!(
+                "corrupted: counts or offset {offset_val} exceed the stream weight {stream_weight}"
+            )));
+        }
+
         let items = deserialize_items(cursor, active_items)?;
         if items.len() != active_items {
             return Err(Error::deserial(
